@@ -336,6 +336,23 @@ let run_case () =
    | Stack_overflow -> Printf.printf "E %s stack-overflow\n" cid);
   Printf.printf "X %s\n" cid
 
+(* exhaustive table of the partition model: one line per (n, n_jobs) *)
+let print_partitions cpu nmax jmin jmax =
+  for n = 1 to nmax do
+    for nj = jmin to jmax do
+      if nj <> 0 then begin
+        let j = int_of_z (effective_jobs (z_of_int cpu) (z_of_int n) (z_of_int nj)) in
+        let sizes = List.map int_of_nat (partition_sizes (nat_of_int n) (nat_of_int j)) in
+        let st = List.map int_of_nat (starts (List.map nat_of_int sizes)) in
+        Printf.printf "P %d %d %d %s %s\n" n nj j (ilist sizes) (ilist st)
+      end
+    done
+  done
+
 let () =
-  load Sys.argv.(1);
-  while not (eof ()) do run_case () done
+  if Sys.argv.(1) = "--part" then
+    print_partitions (int_of_string Sys.argv.(2)) (int_of_string Sys.argv.(3)) (int_of_string Sys.argv.(4)) (int_of_string Sys.argv.(5))
+  else begin
+    load Sys.argv.(1);
+    while not (eof ()) do run_case () done
+  end
